@@ -13,6 +13,8 @@
 (*   evattr      solve.rs  parse_events  (terminal / direction attributes) *)
 (*   evlist      solve.rs  parse_events  loop over SEVERAL event functions *)
 (*   jac         solve.rs / ivp_wrapper.rs  constant | callable | FD       *)
+(*   jacsrc      solve.rs + ivp_wrapper.rs PythonIVP::jac / jac_fd: which     *)
+(*               Jacobian source is used when jac and jac_sparsity combine  *)
 (*   jacread     ivp_wrapper.rs parse_matrix: strided element reads         *)
 (*   spform      sparsity.rs from_python: tocsc() first, else own indices   *)
 (*   group       sparsity.rs group_columns + sparse_jacobian_fd            *)
@@ -97,6 +99,10 @@ SpForms ==
     [form |-> "sp_csr",    tocsc |-> TRUE,  own |-> "csr"],
     [form |-> "sp_coo",    tocsc |-> TRUE,  own |-> "none"],
     [form |-> "sp_lil",    tocsc |-> TRUE,  own |-> "none"] }
+\* the Jacobian-SOURCE machine: every combination of `jac` (absent, callable, constant array in C / Fortran order) with
+\* `jac_sparsity` (absent, or any container of SpForms)
+JSrcJacForms == {"none", "callable", "ndarray", "fortran"}
+JSrcSpForms  == {"none"} \cup {f.form : f \in SpForms}
 \* memory layout of a delivery form: <<offset of element (r, c) in the buffer (0-based r, c), buffer length>>
 JacLayouts == {"ndarray", "fortran", "tview", "strided"}
 LayoutOffset(layout, n, r, c) ==
@@ -179,6 +185,17 @@ EvListContract(evs, o) ==
 JacContract(form, o) ==
   /\ (form = "none" => o.source = "fd")
   /\ (form \in JacMatrixForms \cup {"callable"} => o.source = "user")
+
+\* which Jacobian the solver gets when `jac` and `jac_sparsity` combine (SciPy: jac_sparsity matters only for the finite-
+\* difference approximation, it is ignored when jac is given):  jac if given (a callable IS called at every Jacobian
+\* request, a constant array is read) and then the pattern is not used at all;  else finite differences grouped by the
+\* pattern;  else dense finite differences.  A pattern may change evaluation counts, never the source.
+JacSourceContract(i, o) ==
+  /\ (i.jac = "callable" => o.source = "callable" /\ o.jcalled)
+  /\ (i.jac \in JacMatrixForms => o.source = "const" /\ ~o.jcalled)
+  /\ (i.jac # "none" => ~o.pattern_used)
+  /\ (i.jac = "none" /\ i.sp # "none" => o.source = "fd-grouped" /\ o.pattern_used)
+  /\ (i.jac = "none" /\ i.sp = "none" => o.source = "fd-dense" /\ ~o.pattern_used)
 
 \* the pattern the binding works with is the declared one (element (r, c) of the container), never its transpose
 SparsityFormContract(i, o) == o.read = "csc"
@@ -366,6 +383,23 @@ ParseJac ==
              njev |-> IF inp \in JacMatrixForms THEN "zero" ELSE "solver"]   \* is_constant_jac => njev = 0
   /\ pc' = "done" /\ UNCHANGED <<mach, inp, st>>
 
+\* ---- Jacobian source: solve.rs (what is handed to PythonIVP::new) and ivp_wrapper.rs (PythonIVP::jac, jac_fd) ----
+JSParse ==         \* solve_ivp_py: `sparsity_structure = match jac_sparsity { Some(sp) => Some(from_python(sp)), None => None }`,
+                   \*               `is_constant_jac = jac.map_or(false, |j| !j.is_callable())`
+  /\ mach = "jacsrc" /\ pc = "alloc"
+  /\ st' = [jac |-> inp.jac, has_sp |-> inp.sp # "none", is_const |-> inp.jac \notin {"none", "callable"}]
+  /\ pc' = "loop" /\ UNCHANGED <<mach, inp, out>>
+
+JSDispatch ==      \* PythonIVP::jac: `if let Some(jac_fn) = &self.jac { if jac_fn.is_callable() {call} else {parse_matrix} } else { jac_fd }`;
+                   \* jac_fd: `if let Some(sparsity) = &self.jac_sparsity { sparse_jacobian_fd; return }` else the dense loop
+  /\ mach = "jacsrc" /\ pc = "loop"
+  /\ LET src == IF st.jac # "none"
+                THEN (IF st.jac = "callable" THEN "callable" ELSE "const")
+                ELSE (IF st.has_sp THEN "fd-grouped" ELSE "fd-dense")
+     IN out' = [source |-> src, jcalled |-> src = "callable", pattern_used |-> src = "fd-grouped",
+                njev |-> IF st.is_const THEN "zero" ELSE "solver"]           \* build_result: is_constant_jac => njev = 0
+  /\ pc' = "done" /\ UNCHANGED <<mach, inp, st>>
+
 ParseSparsity ==   \* sparsity.rs from_python: `tocsc()` first when the object has it, else the object's own indices / indptr as CSC
   /\ mach = "spform" /\ pc = "alloc"
   /\ out' = [via |-> IF inp.tocsc THEN "tocsc" ELSE "own", read |-> IF inp.tocsc THEN "csc" ELSE inp.own]
@@ -470,6 +504,7 @@ Init ==
      \/ mach = "evlist" /\ inp \in [len : 2..MaxEvents, first : EvAttrs]
      \/ mach = "jac" /\ inp \in JacForms
      \/ mach = "spform" /\ inp \in SpForms
+     \/ mach = "jacsrc" /\ inp \in [jac : JSrcJacForms, sp : JSrcSpForms]
      \/ mach = "jacread" /\ inp \in [n : 1..3, layout : JacLayouts]
      \/ mach = "group" /\ inp \in BlockInputs
   /\ pc = (IF mach \in {"group", "evlist"} THEN "pick" ELSE "alloc") /\ st = Nothing /\ out = Nothing
@@ -481,6 +516,7 @@ Next ==
   \/ JBuffer \/ JRead \/ JDone \/ ParseSparsity
   \/ StatusMap \/ ParseMethod \/ ParseTol \/ ParseStep \/ ParseEvAttr \/ ParseJac
   \/ ELPick \/ ELStart \/ ELIter \/ ELDone
+  \/ JSParse \/ JSDispatch
   \/ GPick \/ GStart \/ GAssign \/ GNew \/ GFdStart \/ GFdGroup \/ GDone
 
 Spec == Init /\ [][Next]_vars
@@ -500,6 +536,7 @@ Contract ==
       [] mach = "evattr" -> EvAttrContract(inp.terminal, inp.direction, out)
       [] mach = "evlist" -> EvListContract(inp.evs, out)
       [] mach = "jac" -> JacContract(inp, out)
+      [] mach = "jacsrc" -> JacSourceContract(inp, out)
       [] mach = "jacread" -> JacReadContract(inp.n, out)
       [] mach = "spform" -> SparsityFormContract(inp, out)
       [] mach = "group" -> GroupsContract(inp.n, inp.rows, out) /\ FDContract(inp.n, inp.rows, out)
@@ -532,6 +569,8 @@ Scenario ==
                                       doc |-> (DocTerm(inp.evs[i].terminal) /\ DocDir(inp.evs[i].direction))]],
                            doc |-> \A i \in 1..Len(inp.evs) : DocTerm(inp.evs[i].terminal) /\ DocDir(inp.evs[i].direction)]
     [] mach = "jac" -> [kind |-> "jac", form |-> inp, source |-> out.source, njev |-> out.njev]
+    [] mach = "jacsrc" -> [kind |-> "jacsrc", jac |-> inp.jac, sp |-> inp.sp, source |-> out.source, njev |-> out.njev,
+                           pattern_used |-> out.pattern_used]
     [] mach = "spform" -> [kind |-> "spform", form |-> inp.form, via |-> out.via, own |-> inp.own]
     [] mach = "jacread" -> [kind |-> "jaclayout", n |-> inp.n, form |-> inp.layout]
     [] mach = "group" -> [kind |-> "pattern", n |-> inp.n, rows |-> inp.rows, groups |-> out.groups, ngroups |-> out.ngroups]
@@ -539,6 +578,6 @@ Scenario ==
 Emit == pc = "done" => PrintT(<<"REPLAY", ToJson(Scenario)>>)
 
 TypeOK ==
-  /\ mach \in {"transpose", "evflat", "sol", "status", "method", "tol", "step", "evattr", "evlist", "jac", "jacread", "spform", "group"}
+  /\ mach \in {"transpose", "evflat", "sol", "status", "method", "tol", "step", "evattr", "evlist", "jac", "jacsrc", "jacread", "spform", "group"}
   /\ pc \in {"pick", "alloc", "loop", "eval", "tr", "cols", "fd", "done"}
 =============================================================================
